@@ -8,6 +8,9 @@ def run(ctx: Ctx) -> None:
     t6_transforms.run_regrid(ctx)
     t6_transforms.run_unlink_slot(ctx)
     t6_transforms.run_condition_copy(ctx)
+    with ctx.parallel():
+        t6_transforms.run_fit(ctx)
+    ctx.floor("T6x.fit", 16)
     ctx.floor("T6x.condition-copy", 6)
     t6_transforms.run_composite_histories(ctx)
     from ..tables import t67_transforms
@@ -55,6 +58,8 @@ def mutants(prog):
         ("bspline regrid: domain check dropped", S, "BSplineTransform.grid_", "if not grid.same_domain_as(current_grid):", "if False:", "another domain"),
         ("condition(): keyword arguments not forwarded to the copy", B, "SpatialTransform.condition", "return shallow_copy(self).condition_(*args, **kwargs)", "return shallow_copy(self).condition_(*args)", "T6x.condition-copy"),
         ("condition(): keyword-only call treated as the getter", B, "SpatialTransform.condition", "if args or kwargs:", "if args:", "T6x.condition-copy"),
+        ("ddf fit: flow stored in the axes it came in", N, "DisplacementFieldTransform.fit", "flow = flow.axes(grid.axes())", "flow = flow", "T6x.fit"),
+        ("ddf fit: flow converted to world vectors", N, "DisplacementFieldTransform.fit", "flow = flow.axes(grid.axes())", "flow = flow.axes(Axes.WORLD)", "T6x.fit"),
     ]
     for name, mod, fn, old, new, expect in specs:
         ov = source_sub(prog, mod, fn, old, new)
